@@ -1,7 +1,9 @@
 """Minimal reproducers of the suspected spydrnet defects found by the `verilog` engine (C04, C06).
 Run:  PYTHONPATH=/repo /venv/bin/python /verif/corpus/verilog/reproducers.py
 Each case prints what the property clause demands and what spydrnet does. Nothing here is used by the checks
-(they replay the corpus/verilog/*.json witnesses); this file is for the maintainers."""
+(they replay the corpus/verilog/*.json witnesses); this file is for the maintainers.
+Repaired since: V06-top-election, V06-ansi-inherit-dir, V06-shared-range, V06-cell-empty-body (and with them V04-top-after-rewrite,
+V04-portless-primitive-rejected): see corpus/py/c06-verilog-reader-repaired-shapes.py."""
 import os, tempfile, traceback
 import spydrnet as sdn
 from spydrnet.flatten import flatten
@@ -43,13 +45,6 @@ def c06_assign():
     roundtrip(n)   # C04: AssertionError "multiple cables appear to be connected to a single assignment input"
 
 
-def c06_top():
-    n = parse('module A(i); input i; endmodule module R(i); input i; M1 u1(.i(i)); endmodule '
-              'module M1(i); input i; M2 u2(.i(i)); endmodule module M2(i); input i; A u3(.i(i)); endmodule')
-    print('   C06 top: root module is R; elected top is', n.top_instance.reference.name)
-    print('   C04 top: after one write/read cycle the top is', roundtrip(n).top_instance.reference.name)
-
-
 def c06_port_order():
     n = parse('module top(a,b); input a; output b; M m1(.y(b), .x(a)); M m2(a, b); endmodule '
               'module M(x,y); input x; output y; endmodule')
@@ -67,11 +62,6 @@ def c06_rejected(text):
     return f
 
 
-def c06_ansi_dir():
-    n = parse('module top(input a, b, output c); endmodule')
-    print('   C06 ports: "input a, b": b should be IN; is', d(n, 'top').ports[1].direction)
-
-
 def c06_port_attr():
     n = parse('module top(a); (* mark_debug = "true" *) input a; endmodule')
     p = d(n, 'top').ports[0]
@@ -79,20 +69,11 @@ def c06_port_attr():
           p['VERILOG.InlineConstraints'] if 'VERILOG.InlineConstraints' in p else None)
 
 
-def c06_shared_range():
-    n = parse('module top(a); input a; wire [3:2] x, y; endmodule')
-    print('   C06 nets: y should be [3:2]; has %d wire(s) at base %d' % (len(d(n, 'top').cables[-1].wires), d(n, 'top').cables[-1].lower_index))
-
-
 def c04_primitive():
     n = parse('module top(a,b); input a; output b; INV u(.I(a), .O(b)); endmodule')
     n2 = roundtrip(n)
     print('   C04 primitive INV: directions before', [p.direction.name for p in d(n, 'INV').ports],
           'after', [p.direction.name for p in d(n2, 'INV').ports], '; cables before', len(d(n, 'INV').cables), 'after', len(d(n2, 'INV').cables))
-
-
-def c04_portless():
-    roundtrip(parse('module top(a); input a; GND g(); endmodule'))
 
 
 def c04_unnamed():
@@ -118,18 +99,13 @@ def c04_reg():
 
 if __name__ == '__main__':
     case('V06-assign-msb-first / V04-assign-compose-assert (bundled lc3.v, 8051.v)', c06_assign)
-    case('V06-top-election / V04-top-after-rewrite (bundled synth_th1_slaac.v)', c06_top)
     case('V06-port-order-forward-named', c06_port_order)
     case('V06-positional-empty', c06_rejected('module M(x,z,y); input x; input z; output y; endmodule module top(a,b); input a; output b; M m(a, , b); endmodule'))
-    case('V06-ansi-inherit-dir', c06_ansi_dir)
     case('V06-port-attrs-dropped', c06_port_attr)
     case('V06-glob-identifier', c06_rejected('module top(a); input a; wire \\xy ; wire \\x* ; P p(.q(\\x* ), .r(\\xy )); endmodule'))
     case('V06-positional-undeclared-no-growth', c06_rejected('module top(a,c); input [3:0] a; output [1:0] c; P p1(x, a[1:0]); P p2(c, a); endmodule'))
     case('V06-ansi-net-type', c06_rejected('module top(input wire a, output c); endmodule'))
-    case('V06-cell-empty-body', c06_rejected('`celldefine\nmodule BUF(input I, output O);\nendmodule\n`endcelldefine\nmodule top(a,b); input a; output b; BUF u(.I(a), .O(b)); endmodule'))
-    case('V06-shared-range', c06_shared_range)
     case('V04-primitive-inout', c04_primitive)
-    case('V04-portless-primitive-rejected', c04_portless)
     case('V04-unnamed-ports-unwritable', c04_unnamed)
     case('V04-unescaped-hierarchical-names (after flatten)', c04_flatten)
     case('V04-primitive-reg-type-lost (bundled bram.v, zpu4.v)', c04_reg)
